@@ -167,6 +167,9 @@ func RefMatches(i int, v *View, tz *time.Location) bool {
 	case "Q createdday":
 		y, m, d := CreatedOn.In(tz).Date()
 		return y == 2020 && m == time.January && d == 1
+	case "Q createdafter":
+		y, m, d := CreatedOn.In(tz).Date()
+		return y > 2020 || (y == 2020 && (m > time.January || d > 1))
 	case "Q nested":
 		return (anyEq(name, "Bob") || anyEq(lang, "fra")) && len(v.pathsOf("tel")) > 0
 	}
